@@ -61,6 +61,8 @@ def run(res):
     rng = rng_for('C01')
     cases, n_exh = cases_for(res, rng)
     st = mc_common.run_cases(res, 'CTL', cases, 'C01')
+    arng = rng_for('C01/names')
+    st.update(mc_common.adversarial_names_stream(res, 'CTL', lambda: F.rand_ctl(arng, 3), arng, res.tier == 'quick', 'C01'))
     problems = proof_coverage(res, THEOREMS, MODULES)
     for p in problems:
         res.violation('proof obligation no longer checks: ' + p, {'theorem_or_module': p}, no_input=True)
